@@ -247,6 +247,10 @@ func init() {
 // ---------------------------------------------------------------- C09
 
 func runC09(w *World, r *Report) {
+	r.Rule("shiftwidth", "no shift by a constant count that is as large as its operand's type (the value would always be 0: bits lost before widening)", 1)
+	shiftWidthRule(w, r, "shiftwidth", func(fi *FuncInfo) bool { return fi.Pkg.Types.Name() == "protocol" })
+	r.Rule("shadow", "no := in an inner scope re-declares a same-typed variable of the function that is read afterwards (or a named result): the value computed there would be lost", 1)
+	shadowRule(w, r, "shadow", func(fi *FuncInfo) bool { return fi.Pkg.Types.Name() == "protocol" })
 	r.Rule("tailguard", "a decoder that keeps the rest of its input from some offset admits every input that has a byte there", 1)
 	tailGuardRule(w, r, "tailguard", func(k *Kind) bool { return strings.HasPrefix(k.Name, "protocol.") })
 	r.Rule("observers", "methods that formatting calls implicitly (String, Error, …) leave the value unchanged", 1)
@@ -1035,6 +1039,13 @@ func demuxRule(w *World, r *Report, spec *pktSpec) {
 				code := fmt.Sprint(c)
 				present[code] = true
 				want, mapped := d.Cases[code]
+				if len(cc.body) == 0 {
+					// an empty clause does nothing in Go (no fall-through into the next case): no payload value is
+					// installed for this number — a fresh header then calls its payload decoder through nil, a reused
+					// one decodes the bytes with the previous frame's payload kind
+					r.Fail(VViolation, "demux", fn, code, w.Pos(e.Pos()), fmt.Sprintf("the case for %s (%s) has an empty body: Go does not fall through to the next case, so no payload value is assigned for this number", types.ExprString(e), code))
+					continue
+				}
 				switch {
 				case !mapped && (alloc == "" || alloc == "util.Buffer"):
 					r.OK("demux", fn, code, w.Pos(e.Pos()), "number without a table row handled as opaque payload", false)
